@@ -50,7 +50,9 @@ def step (st : St) (line : String) : St × String :=
     match parseDp dp, parseNames names, (if deny = "drop" then some false else if deny = "reject" then some true else none) with
     | some dp, some ns, some rej =>
       match workloadDispatchChains dp rej ns with
-      | some cs => ({ dp := dp, names := ns, chains := cs }, showChains dp cs)
+      | some cs =>
+        let ok := chainNamesOK cs (ns.map (endpointChainName pfxFromWl) ++ ns.map (endpointChainName pfxToWl))
+        ({ dp := dp, names := ns, chains := cs }, showChains dp cs ++ s!" ## names-ok={showBool ok}")
       | none => ({ dp := dp, names := ns, chains := [] }, "panic")
     | _, _, _ => (st, "bad-op")
   | ["host", dp, dirs, aof, dflt, wlp, names] =>
@@ -61,7 +63,10 @@ def step (st : St) (line : String) : St × String :=
     match parseDp dp, dirs?, aof?, dflt?, parseNames wlp, parseNames names with
     | some dp, some dirs, some aof, some dflt, some wlp, some ns =>
       match hostDispatchChains dp ns dflt wlp dirs aof with
-      | some cs => ({ dp := dp, names := ns, chains := cs }, showChains dp cs)
+      | some cs =>
+        let pf := ["cali-fh-", "cali-th-", "cali-fhfw-", "cali-thfw-"]
+        let ok := chainNamesOK cs (pf.flatMap fun p => (dflt :: ns).map (endpointChainName p))
+        ({ dp := dp, names := ns, chains := cs }, showChains dp cs ++ s!" ## names-ok={showBool ok}")
       | none => ({ dp := dp, names := ns, chains := [] }, "panic")
     | _, _, _, _, _, _ => (st, "bad-op")
   | ["maps", names] =>
